@@ -204,6 +204,14 @@ def gen_C16(tier, rng):
             ins.append(("op", ("reshape", t), [0]))
             ins.append(("eq", 0, len(ins) - 1))
             ins.append(("eq", len(ins) - 2, 1))
+        # values that differ in the last place, or by less than any tolerance: == is exact
+        close_a = [0.1 + 0.2] * n
+        close_b = [0.3] * n
+        tiny = [1e-17 * (j + 1) for j in range(n)]
+        ins += [("leaf", False, s, close_a), ("leaf", False, s, close_b), ("leaf", False, s, tiny), ("zeros", s),
+                ("leaf", False, s, [-0.0] * n)]
+        q = len(ins) - 5
+        ins += [("eq", q, q + 1), ("eq", q + 1, q), ("eq", q + 2, q + 3), ("eq", q + 3, q + 4), ("eq", q, q)]
         # the same values under the same dimensions padded with unit dimensions (front, back): never equal
         for t2 in ([1] + s, s + [1], [1, 1] + s):
             if len(t2) <= 6:
@@ -709,6 +717,24 @@ def gen_C07(tier, rng):
         ins += [("leaf", False, s, big), ("op", ("ln",), [3]), ("op", ("recip",), [3]), ("op", ("powf", 0.5), [3]),
                 ("op", ("powf", -1.0), [3])]
         cases.append(case("extreme", ins, "extreme_values", rtol=1e-6))
+    # one buffer under several shapes (reshape shares storage): every reduction and map is decided by the
+    # dimensions of the handle it is called on, in whatever order the views are used
+    for s in ([2, 3], [3, 2], [6], [2, 2], [4], [2, 1, 3], [1, 6], [2, 2, 2]):
+        n = prod(s)
+        views = [t for t in factorizations(n, 3) if t != s][:6]
+        for order in (0, 1):
+            ins = [("leaf", False, s, [float((5 * i) % 7 - 2) * 0.5 for i in range(n)])]
+            for t in views:
+                ins.append(("op", ("reshape", t), [0]))
+            hs = list(range(len(ins)))
+            if order:
+                hs.reverse()
+            for op in (("softmax",), ("sum", 1), ("softmax",), ("sigmoid",), ("exp",), ("relu",)):
+                for h_ in hs:
+                    ins.append(("op", op, [h_]))
+            ins.append(("clone", 0))
+            ins.append(("op", ("softmax",), [len(ins) - 1]))
+            cases.append(case("views", ins, "views_of_one_buffer", rtol=1e-9))
     # saturation: arguments far beyond where exp overflows or underflows; sigmoid must give exactly 1 and 0 there
     # (and a zero derivative), relu/neg/scale must pass the magnitude through
     for k in range(30 if tier == "quick" else 300):
@@ -881,6 +907,92 @@ def readme_loop(a0, b0, c0, iters, thr, rng):
     return b, cur, abs(cv)
 
 
+def selfview_cases(rng):
+    cases = []
+    # (v) one array reaching an operation twice under different shapes: reshaped views share the buffer of their
+    # source, clones share the node; products, quotients and matrix products of an array with a view of itself
+    for n in (2, 3, 4):
+        for kind in ("mul", "add", "sub", "div", "matmul", "mul_clone", "mul_same", "mul_row"):
+            for order in (0, 1):
+                b = randprog.Builder(rng, exact=kind != "div")
+                x = b.leaf([n], tracked=True, values=[float(i + 1) for i in range(n)])
+                if kind in ("mul_clone", "mul_same"):
+                    y = x
+                    if kind == "mul_clone":
+                        b.emit(("clone", x.idx))
+                        y = randprog.Var(len(b.ins) - 1, [n], True, True, True, 1.0)
+                        b.vars[y.idx] = y
+                    out = [n]
+                    z = b.result(("mul",), [x, y], out, False, True, 0)
+                elif kind == "matmul":
+                    col = b.result(("reshape", [n, 1]), [x], [n, 1], False, True, 0)
+                    row = b.result(("reshape", [1, n]), [x], [1, n], False, True, 0)
+                    out = [n, n] if order == 0 else [1, 1]
+                    z = b.result(("matmul", False, False), [col, row] if order == 0 else [row, col], out, False, True, 0)
+                else:
+                    shape = [1, n] if kind == "mul_row" else [n, 1]
+                    v = b.result(("reshape", shape), [x], shape, False, True, 0)
+                    out = [n, n] if shape == [n, 1] else [1, n]
+                    k = "mul" if kind == "mul_row" else kind
+                    z = b.result((k,), [v, x] if order == 0 else [x, v], out, False, kind != "div", 0)
+                c = graph_case("selfview", b, z, b.seed_for(z, "int"), "one_array_twice:%s" % kind,
+                               **({} if kind != "div" else {"rtol": 1e-9}))
+                cases.append(add_tangents(c, rng, exact=kind != "div"))
+    return cases
+
+
+def flag_dance_cases(rng, count):
+    """several results over shared leaves, differentiated one after the other, with the tracking flags of handles of
+    those leaves switched (untracked()/tracked(), stop/start, on the handle itself or on clones) BETWEEN the passes:
+    every leaf's gradient is the sum of the exact gradients of the passes (closed form, integers)"""
+    cases = []
+    for k in range(count):
+        d = rng.choice([[2], [3], [2, 2]])
+        nel = prod(d)
+        av = [float(rng.randint(-3, 3)) for _ in range(nel)]
+        bv = [float(rng.randint(-3, 3)) for _ in range(nel)]
+        ins = [("leaf", True, d, av), ("leaf", True, d, bv)]
+        ga, gb = [0.0] * nel, [0.0] * nel
+        expect = []
+        ha, hb = 0, 1            # the handles operations are built from
+        for r_ in range(rng.randint(2, 4)):
+            kind = rng.choice(["mul", "add", "sub"])
+            ins.append(("op", (kind,), [ha, hb]))
+            root = len(ins) - 1
+            s = [float(rng.randint(-2, 3)) for _ in range(nel)]
+            ins.append(("backward", root, (d, s)))
+            if kind == "mul":
+                ga = [g + x * y for g, x, y in zip(ga, s, bv)]
+                gb = [g + x * y for g, x, y in zip(gb, s, av)]
+            else:
+                ga = [g + x for g, x in zip(ga, s)]
+                gb = [g + (x if kind == "add" else -x) for g, x in zip(gb, s)]
+            ins.append(("grad", 0)); expect.append((len(ins) - 1, d, list(ga)))
+            ins.append(("grad", 1)); expect.append((len(ins) - 1, d, list(gb)))
+            # the dance: every variant leaves a TRACKED handle of the same leaf in ha
+            x = rng.random()
+            if x < 0.25:
+                ins += [("untracked", ha), ("tracked", ha)]
+            elif x < 0.45:
+                ins += [("stop", ha), ("start", ha)]
+            elif x < 0.7:
+                ins.append(("clone", ha))
+                c_ = len(ins) - 1
+                ins += [("untracked", c_), ("tracked", c_)]
+                ha = c_
+            elif x < 0.85:
+                ins.append(("clone", 0))
+                c_ = len(ins) - 1
+                ins += [("stop", c_), ("tracked", c_)]
+                ha = c_
+            ins.append(("grad", 0)); expect.append((len(ins) - 1, d, list(ga)))
+        c = case("flag_dance", ins, "passes_with_flag_changes_between")
+        c["expect_at"] = expect
+        c["adjudicate"] = [e[0] for e in expect]
+        cases.append(c)
+    return cases
+
+
 def gen_C01(tier, rng):
     cases = []
     kinds = ["add", "mul", "cmul"]
@@ -926,35 +1038,7 @@ def gen_C01(tier, rng):
         if mag < 2 ** 50:
             c = graph_case("readme", b, root, None, "control_flow")
             cases.append(add_tangents(c, rng))
-    # (v) one array reaching an operation twice under different shapes: reshaped views share the buffer of their
-    # source, clones share the node; products, quotients and matrix products of an array with a view of itself
-    for n in (2, 3, 4):
-        for kind in ("mul", "add", "sub", "div", "matmul", "mul_clone", "mul_same", "mul_row"):
-            for order in (0, 1):
-                b = randprog.Builder(rng, exact=kind != "div")
-                x = b.leaf([n], tracked=True, values=[float(i + 1) for i in range(n)])
-                if kind in ("mul_clone", "mul_same"):
-                    y = x
-                    if kind == "mul_clone":
-                        b.emit(("clone", x.idx))
-                        y = randprog.Var(len(b.ins) - 1, [n], True, True, True, 1.0)
-                        b.vars[y.idx] = y
-                    out = [n]
-                    z = b.result(("mul",), [x, y], out, False, True, 0)
-                elif kind == "matmul":
-                    col = b.result(("reshape", [n, 1]), [x], [n, 1], False, True, 0)
-                    row = b.result(("reshape", [1, n]), [x], [1, n], False, True, 0)
-                    out = [n, n] if order == 0 else [1, 1]
-                    z = b.result(("matmul", False, False), [col, row] if order == 0 else [row, col], out, False, True, 0)
-                else:
-                    shape = [1, n] if kind == "mul_row" else [n, 1]
-                    v = b.result(("reshape", shape), [x], shape, False, True, 0)
-                    out = [n, n] if shape == [n, 1] else [1, n]
-                    k = "mul" if kind == "mul_row" else kind
-                    z = b.result((k,), [v, x] if order == 0 else [x, v], out, False, kind != "div", 0)
-                c = graph_case("selfview", b, z, b.seed_for(z, "int"), "one_array_twice:%s" % kind,
-                               **({} if kind != "div" else {"rtol": 1e-9}))
-                cases.append(add_tangents(c, rng, exact=kind != "div"))
+    cases += selfview_cases(rng)
     # (vi) wide fan-out (one array with many consumers), long chains and graphs with many nodes
     for fan in ((9, 17, 40) if tier == "quick" else (9, 12, 17, 33, 40, 64, 100)):
         b = randprog.Builder(rng, exact=True)
@@ -989,6 +1073,7 @@ def gen_C01(tier, rng):
             cur = b.result(("add",), [cur, cur], [2], False, True, 0)
         c = graph_case("selfsum", b, cur, ([2], [1.0, 2.0]), "chain:selfsum")
         cases.append(add_tangents(c, rng))
+    cases += flag_dance_cases(rng, 80 if tier == "quick" else 1000)
     return cases
 
 
@@ -1007,6 +1092,7 @@ PROPS["C01"] = {
     "assumptions": ["user-defined operations are the three closures of the harness library (mul, affine, square)",
                     "in-domain values: ln/reciprocal/division/fractional powers only on positive data"],
     "dual": True,
+    "post": ["expected_gradients"],
 }
 
 
@@ -1160,6 +1246,8 @@ def gen_C02(tier, rng):
         df = [count, depth, fr, fc]
         cases.append(single_op_case(rng, ("conv", sr, sc), [(di, rvals(rng, prod(di), True)), (df, rvals(rng, prod(df), True))],
                                     "conv:%s" % ("overlap" if (sr < fr or sc < fc) else "disjoint")))
+    # the derivative of an operation whose two operands are one array under two shapes (views, clones)
+    cases += selfview_cases(rng)
     return cases
 
 
@@ -1408,6 +1496,37 @@ def gen_C13(tier, rng):
         c = case("gd_tied", ins, "tied_parameters:%d" % n)
         c["gd_expect"] = expect
         cases.append(c)
+    # the gradient a parameter holds is an EXISTING, possibly tracked array (a pass seeded with a clone of another
+    # parameter): the step uses its values only - the new parameter is a fresh leaf, and later passes through it
+    # leave the array that served as seed alone
+    for k in range(80 if tier == "quick" else 1000):
+        d = rng.choice([[2], [3], [2, 2], [1, 2]])
+        nel = prod(d)
+        lr = rng.choice([0.5, 0.25, 1.0, 2.0])
+        wv = rvals(rng, nel, True)
+        vv = rvals(rng, nel, True)
+        cv = rvals(rng, nel, True)
+        ins = [("leaf", True, d, wv), ("leaf", True, d, vv), ("backwardh", 0, 1, d, list(vv)),
+               ("update", lr, [0] if k % 2 else [0, 1])]
+        w1 = [x - lr * g for x, g in zip(wv, vv)]
+        expect = []
+        ins.append(("obs", 0)); expect.append((len(ins) - 1, d, list(w1), 1))
+        ins.append(("obs", 1)); expect.append((len(ins) - 1, d, list(vv), 1))
+        # a second, separate step through the new parameter only
+        ins.append(("leaf", False, d, cv))
+        ci = len(ins) - 1
+        ins.append(("op", ("mul",), [0, ci]))
+        ins.append(("backward", len(ins) - 1, None))
+        ins.append(("grad", 1))
+        g1 = len(ins) - 1
+        ins.append(("update", lr, [0, 1]))
+        w2 = [x - lr * g for x, g in zip(w1, cv)]
+        ins.append(("obs", 0)); expect.append((len(ins) - 1, d, list(w2), 1))
+        ins.append(("obs", 1)); expect.append((len(ins) - 1, d, list(vv), 1))
+        c = case("gd_seeded", ins, "gradient_is_an_existing_array")
+        c["gd_expect"] = expect
+        c["expect_at"] = [(g1, d, None)]
+        cases.append(c)
     return cases
 
 
@@ -1449,7 +1568,7 @@ PROPS["C13"] = {
             "distinct program text",
     "exhaustive": {"quick": False, "thorough": False},
     "assumptions": ["gradients have their parameter's dimensions (guaranteed by C03 for gradients produced by backward)"],
-    "post": ["gd_spec"],
+    "post": ["gd_spec", "expected_gradients"],
 }
 
 
@@ -1689,6 +1808,45 @@ def gen_C17(tier, rng):
             cases.append(c)
         rng.setstate(after)
         rng.random()
+    # linearity of a pass that comes AFTER other passes: a prefix with fixed seeds (through matmul with an untracked
+    # additive term, constants, detached operands), every stored gradient cleared, the frozen arrays switched on,
+    # then the pass whose seed varies - whatever the earlier passes left behind must not add a constant
+    for i in range(60 if tier == "quick" else 800):
+        d = [2, 2]
+        av, bv = int_vals(4, rng), int_vals(4, rng)
+        cd = rng.choice([[2], [2, 2], [1, 2]])
+        cv, wv = int_vals(prod(cd), rng), int_vals(4, rng)
+        fl = (rng.random() < 0.5, rng.random() < 0.5)
+        pre_seed = (d, int_vals(4, rng))
+        second = rng.choice(["mul", "matmul_again", "add"])
+        alpha, beta = rng.choice([-2, -1, 1, 2, 3]), rng.choice([-2, -1, 1, 2])
+        s1, s2 = int_vals(4, rng, -2, 2), int_vals(4, rng, -2, 2)
+        s3 = [alpha * x + beta * y for x, y in zip(s1, s2)]
+        g += 1
+        for role, seed in [("s1", (d, s1)), ("s2", (d, s2)), ("comb", (d, s3)), ("none", None), ("ones", (d, [1.0] * 4))]:
+            ins = [("leaf", True, d, av), ("leaf", True, d, bv), ("leaf", False, cd, cv),
+                   ("op", ("matmul", fl[0], fl[1]), [0, 1, 2]), ("backward", 3, pre_seed),
+                   ("backward", 3, None), ("cleargrad", 0), ("cleargrad", 1), ("start", 2),
+                   ("leaf", True, d, wv)]
+            if second == "mul":
+                ins.append(("op", ("mul",), [2, 9]))
+            elif second == "add":
+                ins.append(("op", ("add",), [9, 2]))
+            else:
+                ins.append(("op", ("matmul", fl[1], fl[0]), [0, 9, 2]))
+            root = len(ins) - 1
+            ins.append(("backward", root, seed))
+            grads = {}
+            for leaf in (0, 1, 2, 9):
+                ins.append(("grad", leaf))
+                grads[leaf] = len(ins) - 1
+            c = case("lin_after_" + role, ins, "after_other_passes:%s" % second)
+            c["grads"] = grads
+            c["adjudicate"] = sorted(grads.values())
+            c["group"] = g
+            c["role"] = role
+            c["coeffs"] = (alpha, beta)
+            cases.append(c)
     return cases
 
 
@@ -2056,6 +2214,57 @@ def gen_C10(tier, rng):
             s["final"] = final
             s["adjudicate"] = [i for i, _ in final]
             cases.append(s)
+    cases += flag_dance_cases(rng, 80 if tier == "quick" else 1000)
+    # seeds that are EXISTING arrays handed over as they are (the same array for several passes, a gradient read
+    # back and used as the next seed, a clone of a leaf): passes through operations that forward the delta
+    # unchanged (add, sub, reshape, sum(0), the root itself) must still ADD to what is stored
+    for n2 in range(120 if tier == "quick" else 1500):
+        d = rng.choice([[2], [3], [2, 2], [1, 3]])
+        nel = prod(d)
+        va = [float(rng.randint(-3, 3)) for _ in range(nel)]
+        sv = [float(rng.randint(1, 4)) for _ in range(nel)]
+        ins = [("leaf", True, d, va), ("leaf", True, d, [float(rng.randint(-3, 3)) for _ in range(nel)]),
+               ("leaf", False, d, sv)]
+        kind = rng.choice(["add", "sub", "reshape", "sum0", "leaf_root"])
+        sign_b = 0.0
+        if kind == "add":
+            ins.append(("op", ("add",), [0, 1])); sign_b = 1.0
+        elif kind == "sub":
+            ins.append(("op", ("sub",), [0, 1])); sign_b = -1.0
+        elif kind == "reshape":
+            ins.append(("op", ("reshape", d), [0]))
+        elif kind == "sum0":
+            ins.append(("op", ("sum", 0), [0]))
+        root = 0 if kind == "leaf_root" else len(ins) - 1
+        total = [0.0] * nel
+        expect = []
+        passes = rng.randint(2, 4)
+        seed_var, seed_vals = 2, list(sv)
+        for k2 in range(passes):
+            ins.append(("backwardh", root, seed_var, d, list(seed_vals)))
+            total = [t + s for t, s in zip(total, seed_vals)]
+            ins.append(("grad", 0))
+            expect.append((len(ins) - 1, d, list(total)))
+            if sign_b:
+                ins.append(("grad", 1))
+                expect.append((len(ins) - 1, d, [sign_b * t for t in total]))
+            x = rng.random()
+            if x < 0.25:
+                # the gradient read back becomes the next seed
+                ins.append(("fetchgrad", 0))
+                seed_var, seed_vals = len(ins) - 1, list(total)
+            elif x < 0.4:
+                ins.append(("clone", 2))
+                seed_var, seed_vals = len(ins) - 1, list(sv)
+            elif x < 0.5:
+                ins.append(("cleargrad", 0))
+                if sign_b:
+                    ins.append(("cleargrad", 1))
+                total = [0.0] * nel
+        c = case("same_seed", ins, "seed_is_an_existing_array:%s" % kind)
+        c["expect_at"] = expect
+        c["adjudicate"] = [e[0] for e in expect]
+        cases.append(c)
     return cases
 
 
@@ -2098,6 +2307,28 @@ def post_additivity(cases, rust, model):
 
 POST["additivity"] = post_additivity
 
+def post_expected_gradients(cases, rust, model):
+    """on corgi's own output: gradients whose value the generator computed in closed form (sums of seeds)"""
+    fails = []
+    n = 0
+    for i, (c, r) in enumerate(zip(cases, rust)):
+        for (at, dims, vals) in c.get("expect_at", []):
+            if at >= len(r) or isinstance(r[at], str):
+                break
+            n += 1
+            g = r[at][0]
+            want = (3, [], []) if vals is None else (4, list(dims), list(vals))
+            got = (g[0], list(g[1]), list(g[2]))
+            if got != want:
+                fails.append({"case": i, "confirmed": True,
+                              "reason": "the gradient read at instruction %d is %s; the passes run so far add up to %s"
+                                        % (at, got, want)})
+                break
+    return fails, n
+
+
+POST["expected_gradients"] = post_expected_gradients
+
 PROPS["C10"] = {
     "gen": gen_C10,
     "model_is_spec": False,
@@ -2106,10 +2337,12 @@ PROPS["C10"] = {
             "replace_gradient and by gradient_mut, handle drops; gradients of every leaf and operation handle after each "
             "pass; integer data (exact).  For every history each pass is also run alone on a fresh instance of the same "
             "construction, and additivity (final gradient = sum of the stand-alone passes since the last clear) is "
-            "evaluated on corgi's outputs alone; distinct = distinct program text",
+            "evaluated on corgi's outputs alone; long runs of 12-30 passes; passes with tracking-flag changes of leaf "
+            "handles in between and passes whose seed is an EXISTING array (the same one again, a gradient read back, a "
+            "clone) with closed-form expected sums; distinct = distinct program text",
     "exhaustive": {"quick": False, "thorough": False},
     "assumptions": ["passes that panic are excluded (they may leave residue; not claimed)"],
-    "post": ["additivity"],
+    "post": ["additivity", "expected_gradients"],
 }
 
 
@@ -2162,6 +2395,33 @@ def gen_C18(tier, rng):
           ("sigmoid",), ("softmax",), ("sum", 1), ("sum", 0), ("reshape", [4])]
     bi = [("add",), ("sub",), ("mul",), ("div",), ("axpy", 0.5), ("matmul", False, False), ("matmul", True, False),
           ("matmul", False, True), ("matmul", True, True)]
+    # inference: every operation applied TWICE in a row to the same untracked operands (no graph at all), results
+    # dropped, Vec::from on the operands - nothing outside the program's own handles may keep a buffer alive
+    for op in un + bi + [("conv", 1, 1), ("conv", 2, 1)]:
+        for tracked_second in (False, True):
+            conv = op[0] == "conv"
+            binary = op in bi or conv
+            ins = [("leaf", False, [2, 2] if not conv else [1, 3, 3], [1.0, 2.0, 3.0, 4.0] if not conv else
+                    [float(i + 1) for i in range(9)])]
+            if binary:
+                ins.append(("leaf", tracked_second, [2, 2] if not conv else [1, 1, 2, 2], [2.0, 1.0, 1.5, 3.0]))
+            args = [0, 1] if binary else [0]
+            ins += [("op", op, args), ("op", op, args)]
+            if conv and not tracked_second:
+                ins += [("leaf", False, [1, 1, 2, 2], [0.5, 1.0, -1.0, 2.0]), ("op", op, [0, len(ins)])]
+            nres = len(ins)
+            first = 2 if binary else 1
+            ins += [("drop", j) for j in range(first, nres) if ins[j][0] == "op"]
+            if tracked_second or not binary:
+                ins.append(("takevec", 0))
+                takes = [len(ins) - 1]
+            else:
+                ins += [("takevec", 1), ("takevec", 0)]
+                takes = [len(ins) - 2, len(ins) - 1]
+            c = case("release_twice", ins, "release_inference_twice:%s" % op[0], rtol=1e-9)
+            c["takes"] = takes
+            c["adjudicate"] = takes
+            cases.append(c)
     for op in un + bi:
         for inner in (False, True):
             for passes in (1, 2):
@@ -2687,6 +2947,11 @@ def model_case(rng, tier):
         ins.append(("probe", xi))
         ins.append(("probe", ti))
         ins.append(("probe", fi))
+        if rng.random() < 0.15 and not huge:
+            # a pass started AFTER the update on the output recorded BEFORE it: it reaches the graph of the old
+            # parameters only - the live (re-bound) parameters must stay without gradient
+            ins.append(("backward", fi, None))
+            ins.append(("params",))
         # the forward result goes out of scope, as `_result` does in a training loop
         ins.append(("drop", fi))
         meta["iters"].append({"x": x, "xd": in_dims, "t": t, "forward": fi, "loss": bi, "params_after": pi,
